@@ -500,6 +500,25 @@ def run(ctx):
         ctx.fail('C13.R7', f.key, f.site, f.message)
     if not _lifted_C13_R7:
         ctx.ok('C13.R7', 'lifted from C05', 'column converters are total')
+    # ---------------- R8 the schema adds no constraint that a commit of engine-validated data could violate
+    ctx.rule('C13.R8', 'the object store schema (kmip/pie) declares no uniqueness or check constraint besides the primary keys: the engine validates requests itself, and a constraint violated at commit surfaces as IntegrityError - not a KMIP error, answered with General Failure after part of the batch was executed')
+    n_k = 0
+    for rel in ('kmip/pie/objects.py', 'kmip/pie/sqltypes.py'):
+        t8 = src.tree(rel)
+        for x in ast.walk(t8):
+            bad8 = None
+            if isinstance(x, ast.Call) and (call_name(x) or '').split('.')[-1] in ('UniqueConstraint', 'CheckConstraint', 'ExcludeConstraint'):
+                bad8 = call_name(x)
+            if isinstance(x, ast.Call) and (call_name(x) or '').split('.')[-1] in ('Column', 'Index'):
+                n_k += 1
+                for k in x.keywords:
+                    if k.arg == 'unique' and not (isinstance(k.value, ast.Constant) and k.value.value in (False, None)):
+                        bad8 = '%s(unique=%s)' % (call_name(x), U(k.value))
+            if bad8:
+                ctx.fail('C13.R8', '%s|%s' % (rel, bad8), '%s:%s' % (rel, x.lineno), '%s adds a constraint the engine does not check before committing (e.g. ModifyAttribute never tests for duplicates): a request that violates it is answered with General Failure' % bad8)
+    ctx.count('columns_and_indexes_scanned', n_k, 30)
+    if not any(f.rule == 'C13.R8' for f in ctx.findings):
+        ctx.ok('C13.R8', 'kmip/pie/objects.py, kmip/pie/sqltypes.py', 'no uniqueness / check constraints besides the primary keys')
     ctx.not_decided += ['implicit exceptions of third-party code for particular values (cryptography rejecting a nonce length, unpadding failure with a wrong key)']
     ctx.assumptions += ['requests reach the engine only through the decoders (wire-decoded provenance): field types are those the decoders construct',
                         'TypeError raises in pie validate() are infeasible for decoder-typed values; ValueError raises depend on values and are feasible']
